@@ -11,6 +11,8 @@
 (*   Block    the block the round ended with was inserted by the nodes that are not left behind                   *)
 (*   Deliver  a node that was behind inserted its next block                                                    *)
 (*   Probe    a block valid under one set of consensus rules only was validated by every synced node              *)
+(*   Reorg    the last block was orphaned: the nodes behind inserted another block at its height, its holders        *)
+(*            switched to that block (ResetTo + AddBlock, as the fork resolver does)                              *)
 (* Every line but Offer carries the OBSERVED state of every node (`sts`).  The specification carries what each    *)
 (* node must know and be by the published rules (module Upgrade): its book from the logged deliveries, its         *)
 (* version / stored version / genesis info from the blocks it inserted and its restarts.  `bad` collects the       *)
@@ -39,6 +41,9 @@
 (*                                bits and the network generates geneses                                          *)
 (*   ReplicasFollow               no node refuses a block of the chain that the synced nodes validated              *)
 (*   RulesFollowVersion           a rules probe is accepted exactly by the nodes whose version has those rules      *)
+(*   RollbackRevertsVersion       after switching away from an orphaned upgrade block a node runs (and has stored) the   *)
+(*                                version of the chain it now holds                                              *)
+(*   RollbackRevertsGenesis       ... and reports the genesis info of that chain                                  *)
 (*   RestartRestoresBook          the book after a restart is the persisted book                                   *)
 (*   CanOnlyByRule / CanWhenRule  CanUpgrade answers yes only under the published rule (window inclusive, distance   *)
 (*                                to the validation, int(0.8 K) votes of the K online non-discriminated identities  *)
@@ -62,8 +67,9 @@ VARIABLES l,      \* next trace line
           hd,     \* [NU -> height]
           blks,   \* the blocks of the chain above h0
           ob,     \* [NU -> last observed record]
-          bad
-tvars == <<l, c, nd, hd, blks, ob, bad>>
+          bad,    \* clauses broken so far
+          hot     \* an earlier line of the current world broke a clause: what follows in that world is a consequence, not reported
+tvars == <<l, c, nd, hd, blks, ob, bad, hot>>
 
 SetOf(s) == {s[i] : i \in 1..Len(s)}
 BookOf(pairs) == [v \in VU |-> IF \E i \in 1..Len(pairs) : pairs[i][1] = v
@@ -75,8 +81,15 @@ BlockAtH(h) == IF h <= c.h0 \/ h - c.h0 > Len(blks) THEN NoBlock ELSE blks[h - c
 Alive(sts) == {sts[i].n : i \in {j \in 1..Len(sts) : ~sts[j].dead}}
 
 \* bookkeeping: each clause name is reported once, with the first line that breaks it; drift is counted
-Note(S) == /\ bad' = bad \cup S
-           /\ \A x \in S \ bad : TLCSet(3, Append(TLCGet(3), <<l, x>>))
+Note(S) == IF hot THEN bad' = bad /\ hot' = hot
+           ELSE /\ bad' = bad \cup S /\ hot' = (S # {})
+                /\ \A x \in S \ bad : TLCSet(3, Append(TLCGet(3), <<l, x>>))
+\* the first line of a world
+NoteG(S) == /\ bad' = bad \cup S /\ hot' = (S # {})
+            /\ \A x \in S \ bad : TLCSet(3, Append(TLCGet(3), <<l, x>>))
+\* lines that belong to no world (case table, listener)
+Note0(S) == /\ bad' = bad \cup S /\ hot' = hot
+            /\ \A x \in S \ bad : TLCSet(3, Append(TLCGet(3), <<l, x>>))
 If(cond, name) == IF cond THEN {} ELSE {name}
 Drift(cond, name) == IF cond THEN TRUE
                      ELSE /\ TLCSet(2, TLCGet(2) + 1)
@@ -92,9 +105,11 @@ LastNgUpTo(bs, h) == IF NgIdx(bs, h) = {} THEN PreGen ELSE c.h0 + (CHOOSE x \in 
 \* the NewGenesis blocks of the chain up to h, and the predefined genesis
 GenHeights(bs, h) == {PreGen} \cup {c.h0 + x : x \in NgIdx(bs, h)}
 
+\* the stored version matters through what a restart makes of it: the version of the configuration file unless a higher one is stored
+Eff(x) == IF x > c.base THEN x ELSE c.base
 SameVersion(sts) == \A i, j \in 1..Len(sts) :
     (sts[i].hash = sts[j].hash /\ ~sts[i].dead /\ ~sts[j].dead) =>
-        /\ sts[i].ver = sts[j].ver /\ sts[i].stored = sts[j].stored
+        /\ sts[i].ver = sts[j].ver /\ Eff(sts[i].stored) = Eff(sts[j].stored)
         /\ sts[i].e10 = sts[j].e10 /\ sts[i].e11 = sts[j].e11 /\ sts[i].e12 = sts[j].e12 /\ sts[i].gen = sts[j].gen
 \* OldGenesisAfterRestart: once the chain holds two intermediate geneses, a restarted node reports the predefined genesis as
 \* the old one, a running node the previous intermediate genesis
@@ -106,7 +121,7 @@ SameGenesis(bs, sts) == \A i, j \in 1..Len(sts) :
            \/ (OldOk(bs, sts[i]) /\ OldOk(bs, sts[j]))
 ByChain(sts, nd2) == \A i \in 1..Len(sts) : sts[i].dead \/
         LET o == sts[i] p == nd2[o.n] IN
-        /\ o.ver = p.ver /\ o.stored = p.stored /\ o.target = Target(c.cfg, p.ver)
+        /\ o.ver = p.ver /\ Eff(o.stored) = Eff(p.stored) /\ o.target = Target(c.cfg, p.ver)
         /\ o.e10 /\ (o.e11 <=> E11(p.ver)) /\ (o.e12 <=> E12(p.ver)) /\ (o.gen <=> c.cfg.Gen)
 GenByChain(bs, sts, hd2) == \A i \in 1..Len(sts) : sts[i].dead \/
         LET o == sts[i] g == LastNgUpTo(bs, hd2[o.n]) IN
@@ -128,7 +143,7 @@ Install(sts, nd2, hd2) ==
     /\ Drift(HeadsAgree(sts, hd2), "HeadByRule")
 
 ---------------------------------------------------------------------------
-TraceInit == /\ l = 1 /\ bad = {}
+TraceInit == /\ l = 1 /\ bad = {} /\ hot = FALSE
              /\ c = [cfg |-> [Top |-> 12, Gen |-> FALSE, I |-> 0, W |-> [v \in 10..13 |-> [s |-> 1, e |-> 0]]], base |-> 12, h0 |-> 0]
              /\ nd = [n \in NU |-> [ver |-> 12, stored |-> 0, book |-> Book0, pbook |-> Book0, cur |-> PreGen, old |-> NoGen, inter |-> NoGen]]
              /\ hd = [n \in NU |-> 0] /\ blks = <<>>
@@ -147,7 +162,7 @@ TGenesis ==
           /\ nd' = nd2 /\ hd' = hd2
           /\ ob' = [n \in NU |-> IF \E i \in 1..Len(e.sts) : e.sts[i].n = n THEN Rec(e.sts, n) ELSE [ver |-> 0, stored |-> 0]]
           \* the world starts as the rules say: every node at the version of the configuration file, nothing stored
-          /\ Note(If(\A i \in 1..Len(e.sts) : LET o == e.sts[i] IN
+          /\ NoteG(If(\A i \in 1..Len(e.sts) : LET o == e.sts[i] IN
                           /\ o.ver = e.base /\ o.stored = 0 /\ o.h = e.h0 /\ o.cur = PreGen /\ o.old = NoGen /\ o.inter = NoGen
                           /\ o.e10 /\ (o.e11 <=> E11(e.base)) /\ (o.e12 <=> E12(e.base)) /\ (o.gen <=> e.gen) /\ o.book = <<>>, "VersionByChain")
                   \cup If(\A i, j \in 1..Len(e.sts) : e.sts[i].hash = e.sts[j].hash, "ReplicasFollow"))
@@ -307,8 +322,8 @@ TCase ==
            valS == ValidTarget(q, e.ver, e.now)
            accS(j) == UpgraderAccepts(q, e.ver, e.now, e.vt, book, el, Bitses[j])
            strict == e.strict = 1
-       IN IF e.res # 1 THEN Note({"NoPanic"})
-          ELSE /\ Note(If(e.can = 1 => canS, "CanOnlyByRule")
+       IN IF e.res # 1 THEN Note0({"NoPanic"})
+          ELSE /\ Note0(If(e.can = 1 => canS, "CanOnlyByRule")
                        \cup If((canS /\ strict) => e.can = 1, "CanWhenRule")
                        \cup If(e.bits # 0 => (valS /\ e.bits = Target(q, e.ver)), "BitsOnlyInWindow")
                        \cup If((valS /\ strict) => e.bits = Target(q, e.ver), "BitsWhenInWindow")
@@ -326,11 +341,40 @@ TCase ==
 TListener ==
     /\ l <= Len(Trace) /\ Trace[l].ev = "Listener" /\ l' = l + 1
     /\ LET e == Trace[l] IN
-       Note(If(e.last \/ \A v \in 1..9 : BookOf(e.book)[v] = Fold(e.votes)[v], "ListenerInOrder")
+       Note0(If(e.last \/ \A v \in 1..9 : BookOf(e.book)[v] = Fold(e.votes)[v], "ListenerInOrder")
             \cup If(~e.last \/ e.restored, "RestartRestoresBook"))
     /\ UNCHANGED <<c, nd, hd, blks, ob>>
 
-TraceNext == TCase \/ TListener \/ TGenesis \/ TQuery \/ TVote \/ TPersist \/ TRestart \/ TOffer \/ TBlock \/ TDeliver \/ TProbe
+\* ins = <<node, result, message, 1 = held the orphaned block and switched>>
+TReorg ==
+    /\ l <= Len(Trace) /\ Trace[l].ev = "Reorg" /\ l' = l + 1
+    /\ LET e    == Trace[l]
+           alt  == BlkOf(e.blk)
+           j    == Len(blks)
+           bs2  == [blks EXCEPT ![j] = alt]
+           keep == SubSeq(blks, 1, j - 1)
+           ok(n) == \E i \in 1..Len(e.ins) : e.ins[i][1] = n /\ e.ins[i][2] = 1
+           sw(n) == \E i \in 1..Len(e.ins) : e.ins[i][1] = n /\ e.ins[i][4] = 1
+           nd2  == [n \in NU |-> IF ~ok(n) THEN nd[n]
+                                 ELSE IF sw(n) THEN InsertBlock(c.cfg, RollBack(c.cfg, c.base, nd[n], keep, c.h0, j - 1), alt, e.h)
+                                 ELSE InsertBlock(c.cfg, nd[n], alt, e.h)]
+           hd2  == [n \in NU |-> IF ok(n) THEN e.h ELSE hd[n]]
+           S    == {i \in 1..Len(e.sts) : ~e.sts[i].dead /\ ok(e.sts[i].n)}
+       IN /\ j >= 1 /\ e.h = Tip /\ BlkOf(e.orphan) = blks[j]
+          /\ blks' = bs2
+          /\ Note(If(\A i \in 1..Len(e.ins) : e.ins[i][2] # 2, "NoPanic")
+                  \cup If(\A i \in 1..Len(e.ins) : e.ins[i][2] # 0, "ReplicasFollow")
+                  \cup If(\A i \in S : LET o == e.sts[i] p == nd2[o.n] IN
+                              /\ o.ver = p.ver /\ Eff(o.stored) = Eff(p.stored) /\ o.target = Target(c.cfg, p.ver)
+                              /\ (o.e11 <=> E11(p.ver)) /\ (o.e12 <=> E12(p.ver)), "RollbackRevertsVersion")
+                  \cup If(/\ \A i \in S : LET o == e.sts[i] g == LastNgUpTo(bs2, e.h) IN
+                                  /\ o.cur = g /\ o.inter = (IF g = PreGen THEN NoGen ELSE g)
+                                  /\ (g = PreGen => o.old = NoGen) /\ (g # PreGen => (o.old \in GenHeights(bs2, o.h) /\ o.old < g))
+                          /\ \A i, k \in S : e.sts[i].curh = e.sts[k].curh /\ (e.sts[i].old = e.sts[k].old => e.sts[i].oldh = e.sts[k].oldh), "RollbackRevertsGenesis"))
+          /\ Install(e.sts, nd2, hd2)
+    /\ UNCHANGED c
+
+TraceNext == TReorg \/ TCase \/ TListener \/ TGenesis \/ TQuery \/ TVote \/ TPersist \/ TRestart \/ TOffer \/ TBlock \/ TDeliver \/ TProbe
 TraceSpec == TraceInit /\ [][TraceNext]_tvars
 
 TraceAccepted ==
